@@ -29,6 +29,8 @@ var fuzzSeeds = []string{
 	"8=FIX.4.2\x019=30\x0135=n\x01212=5\x01213=<a\x01b>\x0110=000\x01",
 	"8=FIX.4.2\x019=5\x0135=0\x0110=000\x01", "8=\x019=\x0135=\x0110=\x01", "8=FIX.4.2\x019=99999999999999999999\x01", "8=FIX.4.2\x019=-1\x0135=0\x0110=000\x01",
 	"8=FIX.4.2\x019=5\x0135=0\x0134=\x0110=000\x01", "8=FIX.4.2\x019=10\x0135=n\x01212=99999\x01213=x\x0110=000\x01", "8=FIX.4.2\x01", "8=FIX.4.2\x019=5\x01",
+	// a tag written with a leading zero (the engine reads 08 as 8): once a false alarm of the BodyLength oracle
+	"08=\x019=8\x0135=0000\x0110=\x01",
 	// constants at the boundaries of integer parsing and offset arithmetic, and over-long timestamps
 	"8=FIX.4.2\x019=9223372036854775807\x0135=0\x0110=000\x01", "8=FIX.4.2\x019=9223372036854775795\x0135=0\x0110=000\x01", "8=FIX.4.2\x019=2147483647\x0135=0\x0110=000\x01",
 	"8=FIX.4.2\x019=40\x0135=n\x01212=9223372036854775807\x01213=<a/>\x0110=000\x01", "8=FIX.4.2\x019=40\x0135=n\x01212=9223372036854775800\x01213=<a/>\x0110=000\x01",
